@@ -165,8 +165,14 @@ func (t *Dense) SetAt(v interface{}, coords ...int) error {
 
 // SetMaskAtDataIndex set the value of the mask at a given index
 func (t *Dense) SetMaskAtIndex(v bool, i int) error {
+	if i < 0 || i >= t.len() {
+		return errors.Errorf("SetMaskAtIndex: index %d is out of range for %d data elements", i, t.len())
+	}
 	if !t.IsMasked() {
-		return nil
+		if !v {
+			return nil // no mask: nothing is masked
+		}
+		t.makeMask()
 	}
 	t.mask[i] = v
 	return nil
@@ -174,9 +180,6 @@ func (t *Dense) SetMaskAtIndex(v bool, i int) error {
 
 // SetMaskAt sets the mask value at the given coordinate
 func (t *Dense) SetMaskAt(v bool, coords ...int) error {
-	if !t.IsMasked() {
-		return nil
-	}
 	if !t.IsNativelyAccessible() {
 		return errors.Errorf(inaccessibleData, t)
 	}
@@ -187,6 +190,12 @@ func (t *Dense) SetMaskAt(v bool, coords ...int) error {
 	at, err := t.maskAt(coords...)
 	if err != nil {
 		return errors.Wrap(err, "SetAt()")
+	}
+	if !t.IsMasked() {
+		if !v {
+			return nil // no mask: nothing is masked
+		}
+		t.makeMask()
 	}
 	t.mask[at] = v
 	return nil
